@@ -12,7 +12,7 @@ T: seeded random data sets of up to thousands of records (files larger than the 
    workers, random merge trees): AggregTrace.tla re-evaluates the definitions on every logged run.
 """
 import json
-import os
+import re
 import vlib
 
 TOOLS = ["obisummary", "obimatrix", "obicount"]
@@ -78,31 +78,39 @@ def main(ctx):
     cases_path = ctx.path("cases.ndjson")
     cfg = "AggregMC_thorough.cfg" if thorough else "AggregMC_quick.cfg"
     res = ctx.tlc_model("AggregMC", cfg, env={"VERIF_CASES": cases_path}, timeout=2400, heap="8g")
-    cases = vlib.read_cases(cases_path)
-    if len(cases) * 2 != res.distinct:
-        raise vlib.Inconclusive("exported %d cases for %d terminal states" % (len(cases), res.distinct // 2))
-    ctx.extra["exported_cases"] = len(cases)
-    by_cls = {}
-    for c in cases:
-        by_cls.setdefault(c["cls"], []).append(c)
+    # one exported line per terminal state (guards against torn appends); thorough exports ~90 k lines: they are
+    # counted and classified here and parsed by the driver only
+    by_cls, ncases = {}, 0
+    for line in open(cases_path):
+        m = re.search(r'\\"cls\\":\\"([^"\\]+)\\"', line)
+        if not m:
+            raise vlib.Inconclusive("exported case line without a class: %s" % line[:200])
+        by_cls.setdefault(m.group(1), []).append(ncases)
+        ncases += 1
+    if ncases * 2 != res.distinct:
+        raise vlib.Inconclusive("exported %d cases for %d terminal states" % (ncases, res.distinct // 2))
+    ctx.extra["exported_cases"] = ncases
     ctx.extra["model_scenario_classes"] = {k: len(v) for k, v in sorted(by_cls.items())}
 
     # R ---------------------------------------------------------------------------------------
     if thorough:
-        chosen = cases
+        sel, nsel = cases_path, ncases
     else:
-        chosen = []
+        keep = set()
         for k in sorted(by_cls):
-            chosen += vlib.sample(ctx.rng, by_cls[k], 30)
-    sel = ctx.path("selected.ndjson")
-    vlib.write_ndjson(sel, chosen)
+            keep.update(vlib.sample(ctx.rng, by_cls[k], 30))
+        sel, nsel = ctx.path("selected.ndjson"), len(keep)
+        with open(sel, "w") as f:
+            for i, line in enumerate(open(cases_path)):
+                if i in keep:
+                    f.write(line)
     summ = replay_cases(ctx, sel, bindir)
     if not summ.get("aborted_after_failures"):
         for need in ("summary/plain", "count/plain", "matrix/bysample/plain", "matrix/byrecord/plain", "three/plain",
                      "matrix/bysample/nomap", "matrix/byrecord/dup", "three/dup", "count/norecord", "summary/norecord",
                      "lib/summary/plain/merge", "lib/summary/plain/isummary", "lib/matrix/byrecord/plain/imatrix"):
             ctx.expect_vacuity("replayed class " + need, ctx.classes.get(need, 0))
-    ctx.extra["replayed_cases"] = len(chosen)
+    ctx.extra["replayed_cases"] = nsel
 
     # T ---------------------------------------------------------------------------------------
     trace = ctx.path("trace.ndjson")
